@@ -273,6 +273,33 @@ theorem cxI_strictMono {n r i i' : Nat} (hn : 1 ≤ n) (hr : r < 4 * n - 1) (h :
     rw [e] at d1 ⊢
     omega
 
+/-- within a facet, consecutive centres of a ring are `2/n` apart -/
+theorem cxI_step {n r q j : Nat} (hj : j + 1 < perFacet n r) :
+    cxI n r (q * perFacet n r + (j + 1)) = cxI n r (q * perFacet n r + j) + 2 := by
+  rw [cxI_facet hj, cxI_facet (by omega)]; omega
+
+/-- from a facet to the next one the pattern of centres is translated by `2n/n = 2` -/
+theorem cxI_facet_shift {n r q j : Nat} (hj : j < perFacet n r) :
+    cxI n r ((q + 1) * perFacet n r + j) = cxI n r (q * perFacet n r + j) + 2 * n := by
+  rw [cxI_facet hj, cxI_facet hj, Nat.mul_add]; omega
+
+/-- consecutive equatorial rings (`n − 1 ≤ r`, `r + 1 ≤ 3n − 1`) are offset by half a step: one of them has a centre
+    at `x = 0`, the other at `x = 1/n` -/
+theorem cxOff_equatorial {n r : Nat} (h1 : n ≤ r + 1) (h2 : r + 1 < 3 * n) : cxOff n r + cxOff n (r + 1) = 1 := by
+  unfold cxOff
+  rw [if_neg (by omega), if_pos (by omega), if_neg (by omega), if_pos (by omega)]; omega
+
+/-- ring `r` holds `4·perFacet n r` cells: `4(r+1)` in the north cap, `4n` in the equatorial band (transition rings
+    included), `4(4n−1−r)` in the south cap -/
+theorem ring_cell_count {n r : Nat} (hn : 1 ≤ n) (hr : r < 4 * n - 1) :
+    ringStart n (r + 1) - ringStart n r = 4 * perFacet n r ∧
+    (r + 1 < n → perFacet n r = r + 1) ∧ (n ≤ r + 1 → r < 3 * n → perFacet n r = n) ∧
+    (3 * n ≤ r → perFacet n r = 4 * n - 1 - r) := by
+  refine ⟨by rw [ringStart_succ hn hr]; omega, ?_, ?_, ?_⟩
+  · intro h; unfold perFacet; rw [if_pos h]
+  · intro h h'; unfold perFacet; rw [if_neg (by omega), if_pos h']
+  · intro h; unfold perFacet; rw [if_neg (by omega), if_neg (by omega)]
+
 /-! ## closed form of `center_of_projected_cell` -/
 
 theorem sub64_of_le {d : Bool} {a b : Nat} (h : b ≤ a) : sub64 d a b = some (a - b) := by simp [sub64, h]
